@@ -348,6 +348,38 @@ func runC02(c *core.Ctx) {
 		n := c02EvalOneOptions(c)
 		bounds = append(bounds, fmt.Sprintf("repl.EvalOne: %d programs (definitions, calls, macros defined and used in one input or across inputs, comments, multi-statement) x all 32 combinations of ShowParse/DualFormat/Compact/AllParens/FormatOnly: the normalised text it returns (what the REPL stores in its history) parses to the input's tree", n))
 	}
+	if !c.Expired() && (c.Shard == 0 || c.Of <= 1) {
+		// after a second call of the exported token.Init() (the constant tokens are made anew): the printer and the parser
+		// still agree on the forms that depend on which token a node holds. Kept last: nothing is evaluated afterwards
+		// in this process (the evaluator keeps token pointers of its own).
+		token.Init()
+		texts := []string{"(1).x", "m.(a + b)", "f()\n(2).y", "a.b.c = 1", "(1.5).x", "a[1].k[2]", "x = -a.b", "(a.b)(c)", "m.k++", "del(m.k)", "a . b", "(99999999999999999999).x", "if a.b { c.d }",
+			"quote(unquote(x))", "a ? b", "x => x.y", "-(-a)", "a - -b", "a--b", "!(!a)", "1..2", "1.:2", "a[b:c]", "a[:c]", "{a.b: c.d}", "[a.b, (1).c]", "for a.b { }", "func f(a) { a.b }", "a = b = c.d", "(a = b).c"}
+		for _, lit := range corpusLiterals {
+			texts = append(texts, lit, "("+lit+").k", "x = "+lit+"\n("+lit+").k")
+		}
+		n := 0
+		for _, text := range texts {
+			n++
+			cs := core.BytesCase("reinit", "", []byte(text))
+			c.Current(cs)
+			var isCase bool
+			v := c.Run(func() *core.Viol {
+				vv, ic := c02One(text, "reinit")
+				isCase = ic
+				return vv
+			})
+			out := "not-a-case"
+			if isCase {
+				out = "roundtrip-ok"
+			}
+			if v != nil {
+				out = v.Class
+			}
+			c.CountNT("reinit: "+trunc(text, 120), out, isCase)
+		}
+		bounds = append(bounds, fmt.Sprintf("after a second token.Init(): %d texts (dot / index / prefix forms, every literal spelling alone and as the base of a dot index)", n))
+	}
 	c.P.Bound = strings.Join(bounds, "; ") + "; normal and compact mode"
 }
 
